@@ -199,6 +199,7 @@ func (w *World) Scan(sync bool, order []string) *ScanRecord {
 		rec.Entries = w.J.Since(mark0)
 		rec.FaultHits = w.J.Disarm()
 		w.Last = rec
+		w.recs = append(w.recs, rec)
 		return rec
 	}
 	rec.Restarted = restarted
@@ -255,7 +256,16 @@ func (w *World) Scan(sync bool, order []string) *ScanRecord {
 		w.Ctrl = nil
 	}
 	w.Last = rec
+	w.recs = append(w.recs, rec)
 	return rec
+}
+
+// DrainRecs returns the records of all scans since the last call (a composite action may
+// contain several scans) and forgets them.
+func (w *World) DrainRecs() []*ScanRecord {
+	out := w.recs
+	w.recs = nil
+	return out
 }
 
 // analyse segments the journal by group and derives the per-group facts.
